@@ -49,7 +49,15 @@ fn check(p: &APacket, case: &mut Case) -> Result<(), Fail> {
 fn check_alt(input: &super::c04::AltIn, case: &mut Case) -> Result<(), Fail> {
     let text = super::c04::alt_text(input);
     let alpn = vec!["h2".to_string(), "http/1.1".to_string()];
-    let pk = super::c04::build_alt(input, &text, &alpn).map_err(|f| Fail::new("c02:constructor-failed", f.msg))?;
+    // the statement speaks of packets that were assembled: a constructor refusing the value makes no claim
+    let pk = match super::c04::build_alt(input, &text, &alpn) {
+        Ok(pk) => pk,
+        Err(f) if f.sig == "c04:constructor-failed" => {
+            case.class("constructor-refused:no-claim");
+            return Ok(());
+        }
+        Err(f) => return Err(f),
+    };
     case.nontrivial = text.len() > 254 || !input.2.is_empty();
     let mut model = lib("observe", || observe(&pk))?;
     // an empty TXT is one empty string on the wire (documented aliasing)
